@@ -1171,9 +1171,13 @@ def _decorate_new_with_invariants(new_func: CallableT) -> CallableT:
         if len(args) > 0 and not nested:
             mark = _Mark(flow, id(args[0]))
             mark.owner = wrapper
-            _IN_PROGRESS.set(in_progress | {mark})
 
         try:
+            # The mark is registered inside the try-block: an interrupt (*e.g.*, KeyboardInterrupt) which arrives
+            # right after the registration must not leave the mark active for good.
+            if mark is not None:
+                _IN_PROGRESS.set(in_progress | {mark})
+
             if (
                 new_func is object.__new__
                 and len(args) > 0
@@ -1259,10 +1263,14 @@ def _decorate_with_invariants(func: CallableT, is_init: bool) -> CallableT:
                 return func(*args, **kwargs)
 
             mark = _Mark(flow, id(instance))
-            _IN_PROGRESS.set(in_progress | {mark})
 
             # ExitStack is not used here due to performance.
+            #
+            # The mark is registered inside the try-block: an interrupt (*e.g.*, KeyboardInterrupt) which arrives
+            # right after the registration must not leave the mark active for good.
             try:
+                _IN_PROGRESS.set(in_progress | {mark})
+
                 result = func(*args, **kwargs)
 
                 for invariant in instance.__class__.__invariants__:
@@ -1315,15 +1323,19 @@ def _decorate_with_invariants(func: CallableT, is_init: bool) -> CallableT:
                 # The following dunder indicates whether another invariant is currently being checked. If so,
                 # we need to suspend any further invariant check to avoid endless recursion.
                 flow = _current_flow()
-                if not _is_in_progress(in_progress, flow, id(instance)):
-                    mark = _Mark(flow, id(instance))
-                    _IN_PROGRESS.set(in_progress | {mark})
-                else:
+                if _is_in_progress(in_progress, flow, id(instance)):
                     # Do not check any invariants to avoid endless recursion.
                     return await func(*args, **kwargs)
 
+                mark = _Mark(flow, id(instance))
+
                 # ExitStack is not used here due to performance.
+                #
+                # The mark is registered inside the try-block: an interrupt (*e.g.*, KeyboardInterrupt) which arrives
+                # right after the registration must not leave the mark active for good.
                 try:
+                    _IN_PROGRESS.set(in_progress | {mark})
+
                     for invariant in invariants:
                         _assert_invariant(contract=invariant, instance=instance)
 
@@ -1368,15 +1380,19 @@ def _decorate_with_invariants(func: CallableT, is_init: bool) -> CallableT:
                 in_progress = _get_in_progress()
 
                 flow = _current_flow()
-                if not _is_in_progress(in_progress, flow, id(instance)):
-                    mark = _Mark(flow, id(instance))
-                    _IN_PROGRESS.set(in_progress | {mark})
-                else:
+                if _is_in_progress(in_progress, flow, id(instance)):
                     # Do not check any invariants to avoid endless recursion.
                     return func(*args, **kwargs)
 
+                mark = _Mark(flow, id(instance))
+
                 # ExitStack is not used here due to performance.
+                #
+                # The mark is registered inside the try-block: an interrupt (*e.g.*, KeyboardInterrupt) which arrives
+                # right after the registration must not leave the mark active for good.
                 try:
+                    _IN_PROGRESS.set(in_progress | {mark})
+
                     for invariant in invariants:
                         _assert_invariant(contract=invariant, instance=instance)
 
